@@ -36,7 +36,11 @@ CONSTANTS
     UseWeights,     \* ring composition follows weight / gcd
     RespCanPanic,   \* C19: a response may escalate into a panic of the shot (must be FALSE)
     GrpcAbortOnStatus, \* negative control: the grpc gun ends the shot at ANY error status (documented: only an assertion does)
-    HtmlEscapes     \* the html templater escapes what it renders (FALSE: negative control)
+    HtmlEscapes,    \* the html templater escapes what it renders (FALSE: negative control)
+    NextKeyFullPath, \* a [next] counter belongs to the FULL path of the indexed list (FALSE, negative control: to the bare
+                    \* indexed segment `users[next]`, so lists with the same name under different parents share one counter)
+    OwnSleep        \* the sleep argument of name(n, sleep) belongs to THAT list entry (FALSE, negative control: it
+                    \* accumulates on the request, so later entries listing the same request inherit it)
 
 VARIABLE st
 
@@ -56,20 +60,22 @@ Copies(it) == IF ExactMult THEN it.n ELSE it.n + 1
 AddSleepLast(steps, ms) ==
     [j \in 1..Len(steps) |-> IF j = Len(steps) THEN [steps[j] EXCEPT !.sleep = @ + ms] ELSE steps[j]]
 
-\* acc: steps so far; carry: (negative control only) sleep waiting for the next step
-RECURSIVE ExpandFrom(_, _, _)
-ExpandFrom(items, acc, carry) ==
+\* acc: steps so far; carry: (negative control only) sleep waiting for the next step;
+\* leak: (negative control OwnSleep = FALSE only) per request name the sleep arguments of the entries seen so far
+RECURSIVE ExpandFrom(_, _, _, _)
+ExpandFrom(items, acc, carry, leak) ==
     IF items = <<>> THEN acc
     ELSE LET it == Head(items) IN
          IF it.k = "sleep"
          THEN IF SleepToPrev
-              THEN ExpandFrom(Tail(items), AddSleepLast(acc, it.sl), 0)
-              ELSE ExpandFrom(Tail(items), acc, carry + it.sl)
-         ELSE LET new == [j \in 1..Copies(it) |-> [name |-> it.name, sleep |-> it.sl]]
+              THEN ExpandFrom(Tail(items), AddSleepLast(acc, it.sl), 0, leak)
+              ELSE ExpandFrom(Tail(items), acc, carry + it.sl, leak)
+         ELSE LET sl == IF OwnSleep THEN it.sl ELSE leak[it.name] + it.sl
+                  new == [j \in 1..Copies(it) |-> [name |-> it.name, sleep |-> sl]]
                   new2 == IF carry > 0 THEN AddSleepLast(new, carry) ELSE new
-              IN ExpandFrom(Tail(items), acc \o new2, 0)
+              IN ExpandFrom(Tail(items), acc \o new2, 0, [leak EXCEPT ![it.name] = sl])
 
-Expand(items) == ExpandFrom(items, <<>>, 0)
+Expand(items) == ExpandFrom(items, <<>>, 0, [nm \in Names |-> 0])
 
 \* independent reading of the documentation, used as a check of Expand (ExpandOK below)
 RECURSIVE StepsBefore(_, _)
@@ -125,8 +131,26 @@ IterOf(c, nm) == IF UsedIn(c, nm) = {} THEN 0 ELSE CHOOSE i \in UsedIn(c, nm) : 
 -----------------------------------------------------------------------------
 (* state *)
 
-Sources == {"users", "items"}
-SrcTag(s) == IF s = "users" THEN "r" ELSE "q"
+\* Data sources and the indexable lists in them (a PATH names a list):
+\*   users, items   file/csv sources                source.users[i].id                    rows r0.. / q0..
+\*   buyers, sellers  lists of a NESTED file/json source   source.market.buyers.users[i].id      rows b0.. / s0..
+\*                                                        source.market.sellers.users[i].id
+\*   vlist, glist   lists of strings of a `variables` source   source.vars.list[i], source.vars.grp.list[i]   v0.. / w0..
+\* The lists have different lengths.  The last segment of users / buyers / sellers is the same text `users[..]`, of
+\* vlist / glist `list[..]`: a [next] counter belongs to the full path (mp.GetMapValue hands the path walked so far to
+\* NextIterator.Next), never to the bare segment.
+Paths == {"users", "items", "buyers", "sellers", "vlist", "glist"}
+Sources == Paths
+PathTag(p) == CASE p = "users" -> "r" [] p = "items" -> "q" [] p = "buyers" -> "b" [] p = "sellers" -> "s"
+                [] p = "vlist" -> "v" [] p = "glist" -> "w"
+SrcTag(p) == PathTag(p)
+LastSeg(p) == CASE p \in {"users", "buyers", "sellers"} -> "users" [] p = "items" -> "items" [] OTHER -> "list"
+CtrKeys == Paths \cup {"list"}
+PathKey(p) == IF NextKeyFullPath THEN p ELSE LastSeg(p)
+PathRows(c, p) == CASE p \in {"users", "items", "sellers"} -> c.rows
+                    [] p = "buyers" -> c.rows + 1
+                    [] p = "vlist"  -> 2
+                    [] p = "glist"  -> 3
 \* with `special` the rows of users end in a character html/template escapes: r0< r1< ...
 SrcTagC(c, src) == IF src = "users" /\ c.special THEN "r<" ELSE SrcTag(src)
 
@@ -149,16 +173,18 @@ EscV(tmpl, v) == IF tmpl # "html" \/ ~HtmlEscapes THEN v
 
 FreshVars == [nm \in Names |-> [seen |-> FALSE, hasPre |-> FALSE, row |-> NoVal, hasPost |-> FALSE, tok |-> NoVal]]
 IdleInst  == [pc |-> "idle", sc |-> 0, steps |-> <<>>, pos |-> 0, vs |-> FreshVars,
-              pend |-> [val |-> NoVal, at |-> "", status |-> 0, k |-> 0, row |-> NoVal, trunc |-> FALSE],
-              lastSleep |-> 0, failed |-> FALSE, shot |-> 0]
+              pend |-> [val |-> NoVal, at |-> "", status |-> 0, k |-> 0, row |-> NoVal, trunc |-> FALSE, rnd |-> 0],
+              lastSleep |-> 0, failed |-> FALSE, shot |-> 0,
+              spent |-> 0]          \* pauses of the current shot so far (ms)
 
 InitSt(c) ==
     [cs |-> c, ring |-> RingOf(c.scens), taken |-> 0,
      inst |-> [i \in 1..NInst |-> IdleInst],
      \* ctr[owner][scenario iterator][source]; owner 0 = shared
-     ctr |-> [o \in 0..NInst |-> [it \in 0..Len(c.scens) |-> [s \in Sources |-> 0]]],
+     ctr |-> [o \in 0..NInst |-> [it \in 0..Len(c.scens) |-> [s \in CtrKeys |-> 0]]],
      k |-> 0, log |-> <<>>, samples |-> <<>>,
      handed |-> <<>>,        \* history: [it, src, n] raw [next] numbers handed out, in order
+     durs |-> <<>>,          \* history: per finished shot the time it takes AT LEAST (pauses, min_waiting_time)
      panics |-> 0]
 
 Cur(s, i)  == s.inst[i]
@@ -171,23 +197,32 @@ Sample(s, i, proto, err) == [sc |-> ScName(s, i), step |-> Step(s, i).name, prot
 \* the step failed (preprocessor / template / transport / body / postprocessor): reportErr, return err.
 \* proto is the status that was RECEIVED (a failure after the response arrived: failed assertion, failing
 \* extractor, unreadable body) and 0 when there was no response (preprocessor / template / transport error)
+\* the shot of instance i is over: it has taken at least its pauses and at least the scenario's min_waiting_time
+\* ("the minimum scenario execution time" - also when a step failed and the rest was skipped)
+Max(a, b) == IF a > b THEN a ELSE b
+EndShot(s, i) == [s EXCEPT !.durs = Append(@, [sc |-> ScName(s, i),
+                                               dur |-> Max(s.cs.scens[Cur(s, i).sc].mwt, Cur(s, i).spent)])]
+
 FailF(s, i, proto) ==
     LET smp == Sample(s, i, proto, ~IsGrpc(s))
         last == Cur(s, i).pos >= Len(Cur(s, i).steps)
         goOn == ~StopOnFail /\ ~last      \* negative control: carry on with the next step
-    IN [s EXCEPT !.samples = Append(@, smp),
+        s1 == [s EXCEPT !.samples = Append(@, smp),
                  !.inst[i] = IF goOn
                              THEN [@ EXCEPT !.pc = "pre", !.pos = @ + 1, !.lastSleep = 0, !.failed = TRUE]
                              ELSE [@ EXCEPT !.pc = "idle", !.lastSleep = 0, !.failed = goOn]]
+    IN IF goOn THEN s1 ELSE EndShot(s1, i)
 
 \* provider.Acquire + schedule token: the next ring entry, expanded
 AcquireF(s, i) ==
     LET sc == s.ring[(s.taken % Len(s.ring)) + 1]
         steps == Expand(s.cs.scens[sc].items)
-    IN [s EXCEPT !.taken = @ + 1,
+        s1 == [s EXCEPT !.taken = @ + 1,
                  !.inst[i] = [IdleInst EXCEPT !.pc = IF steps = <<>> THEN "idle" ELSE "pre",
                                               !.sc = sc, !.steps = steps, !.pos = 1,
                                               !.lastSleep = Cur(s, i).lastSleep, !.shot = s.taken + 1]]
+    \* a scenario without requests: the shot is over at once - no request, no sample (min_waiting_time still holds)
+    IN IF steps = <<>> THEN EndShot(s1, i) ELSE s1
 
 \* mp.GetMapValue on the variable tree: <<found, value>>
 LookupPost(vs, of) == IF vs[of].seen /\ vs[of].hasPost /\ vs[of].tok # NoVal THEN <<TRUE, vs[of].tok>> ELSE <<FALSE, NoVal>>
@@ -213,14 +248,19 @@ PreF(s, i) ==
         \* shootStep: requestVars[step.Name] = fresh map
         vs0  == [me.vs EXCEPT ![nm] = [seen |-> TRUE, hasPre |-> FALSE, row |-> NoVal, hasPost |-> FALSE, tok |-> NoVal]]
         isNext == d.pre.k = "next"
-        raw  == IF isNext THEN s.ctr[own][it][d.pre.of] ELSE 0
+        key  == PathKey(d.pre.of)              \* what the [next] counter belongs to
+        Rp   == PathRows(s.cs, d.pre.of)       \* length of the indexed list
+        raw  == IF isNext THEN s.ctr[own][it][key] ELSE 0
+        \* calcIndex: next = counter mod length, last = length - 1, an integer index (negative, beyond the end) is
+        \* taken modulo the length, rand = some row
         pre  == CASE d.pre.k = "none"    -> <<TRUE, FALSE, NoVal>>
-                  [] d.pre.k = "next"    -> <<TRUE, TRUE, Val(SrcTagC(s.cs, d.pre.of), raw % R)>>
-                  [] d.pre.k = "last"    -> <<TRUE, TRUE, Val(SrcTagC(s.cs, d.pre.of), R - 1)>>
-                  [] d.pre.k = "idx"     -> <<TRUE, TRUE, Val(SrcTagC(s.cs, d.pre.of), s.cs.idx % R)>>
+                  [] d.pre.k = "next"    -> <<TRUE, TRUE, Val(SrcTagC(s.cs, d.pre.of), raw % Rp)>>
+                  [] d.pre.k = "last"    -> <<TRUE, TRUE, Val(SrcTagC(s.cs, d.pre.of), Rp - 1)>>
+                  [] d.pre.k = "idx"     -> <<TRUE, TRUE, Val(SrcTagC(s.cs, d.pre.of), s.cs.idx % Rp)>>
+                  [] d.pre.k = "rand"    -> <<TRUE, TRUE, Val(SrcTagC(s.cs, d.pre.of), 0)>>     \* n: any of 0..Rp-1 (pend.rnd)
                   [] d.pre.k = "from"    -> LET l == LookupPost(vs0, d.pre.of) IN <<l[1], l[1], l[2]>>
                   [] d.pre.k = "missing" -> <<FALSE, FALSE, NoVal>>
-        s1   == IF isNext THEN [s EXCEPT !.ctr[own][it][d.pre.of] = @ + 1,
+        s1   == IF isNext THEN [s EXCEPT !.ctr[own][it][key] = @ + 1,
                                          !.handed = Append(@, [it |-> it, src |-> d.pre.of, n |-> raw])]
                 ELSE s
         vs1  == IF pre[2] THEN [vs0 EXCEPT ![nm].hasPre = TRUE, ![nm].row = pre[3]] ELSE vs0
@@ -230,7 +270,9 @@ PreF(s, i) ==
     IN IF ~pre[1] \/ ~rnd[1] THEN FailF(s2, i, 0)
        ELSE [s2 EXCEPT !.inst[i].pc = "send",
                        !.inst[i].pend = [val |-> rnd[2], at |-> d.use.at, status |-> 0, k |-> 0, trunc |-> FALSE,
-                                         row |-> IF pre[2] THEN pre[3] ELSE NoVal]]
+                                         row |-> IF pre[2] THEN pre[3] ELSE NoVal,
+                                         \* > 0: the rendered row is ANY of 0..rnd-1 ([rand] rendered by this very step)
+                                         rnd |-> IF d.pre.k = "rand" /\ d.use.src = "pre" /\ d.use.of = nm THEN Rp ELSE 0]]
 
 \* the request reaches the target; the script decides what the peer does to arrival number k
 SendF(s, i) ==
@@ -241,7 +283,7 @@ SendF(s, i) ==
         \* nothing) on the CONTENT of the request: the data-source row rendered into the URI has parity sc.at
         hit == IF sc.kind = "rowmod" THEN me.pend.at = "uri" /\ me.pend.val.t = "r" /\ me.pend.val.n % 2 = sc.at
                ELSE sc.at = k1
-        entry == [req |-> Step(s, i).name, val |-> me.pend.val, at |-> me.pend.at, gap |-> me.lastSleep]
+        entry == [req |-> Step(s, i).name, val |-> me.pend.val, at |-> me.pend.at, gap |-> me.lastSleep, rnd |-> me.pend.rnd]
         s1 == [s EXCEPT !.k = k1, !.log = Append(@, entry)]
     \* no response at all (status line cut / connection closed after the request was read, with zero response bytes):
     \* the step fails, it is NOT sent again - the target sees it exactly once
@@ -271,11 +313,13 @@ PostF(s, i) ==
     \* with or without postprocessors - and the sample keeps the status that was received
         grpcAborts == GrpcAbortOnStatus /\ IsGrpc(s) /\ me.pend.status # 200
     IN IF me.pend.trunc \/ assertFails \/ grpcAborts THEN FailF(s, i, me.pend.status)
-       ELSE [s EXCEPT !.samples = Append(@, Sample(s, i, me.pend.status, FALSE)),
+       ELSE LET s1 == [s EXCEPT !.samples = Append(@, Sample(s, i, me.pend.status, FALSE)),
                       !.inst[i] = [@ EXCEPT !.vs[nm].hasPost = captured, !.vs[nm].tok = IF captured THEN tok ELSE NoVal,
                                             !.lastSleep = Step(s, i).sleep,
+                                            !.spent = @ + Step(s, i).sleep,
                                             !.pc = IF last THEN "idle" ELSE "pre",
                                             !.pos = IF last THEN @ ELSE @ + 1]]
+            IN IF last THEN EndShot(s1, i) ELSE s1
 
 Enabled(s, i) == Cur(s, i).pc # "idle" \/ s.taken < s.cs.shots
 
@@ -304,7 +348,7 @@ RunFrom(s) == IF ~Enabled(s, 1) THEN s ELSE RunFrom(StepF(s, 1))
 Expected(c) == LET f == RunFrom(InitSt(c))
                IN [log |-> f.log, samples |-> f.samples,
                    ring |-> [j \in 1..Len(f.ring) |-> c.scens[f.ring[j]].name],
-                   handed |-> f.handed]
+                   handed |-> f.handed, durs |-> f.durs]
 
 -----------------------------------------------------------------------------
 (* properties *)
@@ -358,6 +402,15 @@ GrpcGoesOn ==
 \* escaped by the text templater
 EscapingOK == st.cs.special =>
     \A j \in 1..Len(st.log) : st.log[j].val.t # (IF st.cs.tmpl = "html" THEN "r<" ELSE "r&lt;")
+
+\* duration of shots (independent reading): every shot that is over is accounted, with at least its scenario's
+\* min_waiting_time - whether or not a step failed - and, when none of its steps failed, at least all listed pauses
+ScIdx(c, nm) == CHOOSE j \in 1..Len(c.scens) : c.scens[j].name = nm
+SpansOK ==
+    /\ Done(st) => Len(st.durs) = st.taken
+    /\ \A n \in 1..Len(st.durs) : st.durs[n].dur >= st.cs.scens[ScIdx(st.cs, st.durs[n].sc)].mwt
+    /\ (NInst = 1 /\ Done(st) /\ \A j \in 1..Len(st.samples) : ~st.samples[j].err /\ st.samples[j].proto = 200)
+          => \A n \in 1..Len(st.durs) : st.durs[n].dur >= TotalSleep(st.cs.scens[ScIdx(st.cs, st.durs[n].sc)].items)
 
 \* C19: no response makes the shot panic; after any response the instance takes the next ammo
 NoPanic == st.panics = 0
